@@ -151,7 +151,16 @@ COUNTER_OK = {}      # kernel member name -> True once S12 has shown it equals t
 def queue_empty_facts(p, K):
     """{'runq' | 'timerq' | 'atomic': (True = known empty | False = known non-empty, event index of the test)} on path p.
     Recognised tests: list_empty(q), messageq_empty(&atomic_runq), q.head == NULL, list_peek(q) == NULL."""
-    facts = {}
+    class _Facts(dict):
+        """(two tests of one queue with opposite answers and no queue operation in between: the path is infeasible)"""
+        def __setitem__(self, q, v):
+            if q in self and dict.__getitem__(self, q)[0] != v[0]:
+                lo, hi = sorted((dict.__getitem__(self, q)[1], v[1]))
+                if not any(e_.kind == "call" and not (isinstance(e_.callee, str) and (e_.callee in EFFECTS or e_.callee.startswith("llvm.")))
+                           for e_ in p.events[lo + 1:hi]):
+                    dict.__setitem__(self, "_infeasible", (True, hi))
+            dict.__setitem__(self, q, v)
+    facts = _Facts()
     for k, e, truth in cond_truth_of_call(p, "list_empty"):
         q = K.queue_arg(e.args[0])
         if q in ("runq", "timerq") and truth is not None:
@@ -398,11 +407,28 @@ def check_counter_tracks_runq(chk, m, K, member):
     cptr = K.kptr(member)
     verdict = True
     n = 0
+    # a counter is something that is stepped: a member that is never assigned  its old value +/- a constant  (a time difference, a
+    # cached pointer, a flag) is not a candidate, and this rule has nothing to say about it
+    stepped = False
+    allsegs = {}
     for fn in m.defined_functions():
         try:
-            segs = [(s, p) for s, p in paths.enumerate_segments(fn, m, call_effects=EFFECTS) if p.end != "unreachable"]
+            allsegs[fn.name] = [(s, p) for s, p in paths.enumerate_segments(fn, m, call_effects=EFFECTS) if p.end != "unreachable"]
         except AnalysisError:
             continue
+        for s, p in allsegs[fn.name]:
+            for e in p.events:
+                if e.kind == "store" and e.ptr == cptr:
+                    v = strip_casts(e.val)
+                    if v[0] == "b" and v[1] in ("add", "sub") and v[4][0] == "c" and strip_casts(v[3])[0] == "ld" and strip_casts(v[3])[1] == cptr:
+                        stepped = True
+    if not stepped:
+        _COUNTER_VERDICT[key] = None
+        return None
+    for fn in m.defined_functions():
+        if fn.name not in allsegs:
+            continue
+        segs = allsegs[fn.name]
         for s, p in segs:
             ev = p.events
             cstores = [e for e in ev if e.kind == "store" and e.ptr == cptr]
